@@ -927,4 +927,50 @@ theorem decision_some {y x : E} {b : Bool} (h : decision ps y x = some b) :
   · simp only [Bool.not_eq_true] at hc
     rw [hc] at h; simp at h
 
+
+/-! ## the evaluation with sharing computes `info` -/
+
+theorem headE_info {e : E} : headE (info ps e) = e := by
+  cases e with
+  | nil => rfl
+  | mk i c s o m => rfl
+
+/-- every table entry is `info` of the event tree it stands for -/
+def TblOK (tbl : List (Nat × List Rec)) : Prop :=
+  ∀ p ∈ tbl, p.2 = info ps (headE p.2) ∧ (headE p.2).id = p.1
+
+theorem lookupInfo_ok {tbl : List (Nat × List Rec)} (h : TblOK ps tbl) (i : Nat) :
+    lookupInfo tbl i = info ps (headE (lookupInfo tbl i)) := by
+  unfold lookupInfo
+  cases hf : tbl.find? (fun p => p.1 == i) with
+  | none => rfl
+  | some p => exact (h p (List.mem_of_find?_eq_some hf)).1
+
+theorem buildStep_ok {tbl : List (Nat × List Rec)} (h : TblOK ps tbl) (nd : Node) : TblOK ps (buildStep ps tbl nd) := by
+  intro p hp
+  simp only [buildStep, List.mem_cons] at hp
+  rcases hp with hp | hp
+  · subst hp
+    simp only []
+    have e1 := lookupInfo_ok ps h nd.sp
+    have e2 := lookupInfo_ok ps h nd.op
+    have : infoStep ps (.mk nd.id nd.creator (headE (lookupInfo tbl nd.sp)) (headE (lookupInfo tbl nd.op)) nd.mid)
+        (lookupInfo tbl nd.sp) (lookupInfo tbl nd.op) =
+        info ps (.mk nd.id nd.creator (headE (lookupInfo tbl nd.sp)) (headE (lookupInfo tbl nd.op)) nd.mid) := by
+      show _ = infoStep ps _ (info ps (headE (lookupInfo tbl nd.sp))) (info ps (headE (lookupInfo tbl nd.op)))
+      rw [← e1, ← e2]
+    rw [this, headE_info]
+    exact ⟨rfl, rfl⟩
+  · exact h p hp
+
+/-- **`build` evaluates `info`**: whatever the order of the node list, every entry of the table is
+    exactly `info` of the event tree assembled for it (the executable compared with the Go code is
+    the function the theorems are about) -/
+theorem build_ok (nodes : List Node) : TblOK ps (build ps nodes) := by
+  unfold build
+  suffices h : ∀ tbl, TblOK ps tbl → TblOK ps (nodes.foldl (buildStep ps) tbl) from h [] (by intro p hp; simp at hp)
+  induction nodes with
+  | nil => intro tbl h; exact h
+  | cons nd l ih => intro tbl h; exact ih _ (buildStep_ok ps h nd)
+
 end Babble.Dag
